@@ -1220,8 +1220,14 @@ class Inliner:
                         value=clone(arg)))
                     sub[p] = ast.Name(id=nm, ctx=ast.Load())
             rename = {}
+            body_names = set()
+            if mode == 'consume':
+                # the loop body is interleaved with the helper's statements:
+                # its names must not meet the helper's locals
+                body_names = {x.id for b2 in st.body for x in ast.walk(b2)
+                              if isinstance(x, ast.Name)} | {st.target.id}
             for v in t_locals - params:
-                if v in nested_f:
+                if v in nested_f or v in body_names:
                     rename[v] = v + tag
                 elif v not in names_f[0]:
                     continue              # no such name here: keep it
@@ -1790,9 +1796,33 @@ def n6c_multi_use_temps(fnode, keep=()):
                 paths(sub, anc)
     paths(fnode.body, ())
 
+    def leaves(stmts):
+        """the statement list never falls off its end"""
+        if not stmts:
+            return False
+        last = stmts[-1]
+        if isinstance(last, (ast.Return, ast.Raise, ast.Continue, ast.Break)):
+            return True
+        if isinstance(last, ast.If):
+            return leaves(last.body) and leaves(last.orelse)
+        return False
+    closed = set()          # (If id, branch) whose statements always leave
+    for x in ast.walk(fnode):
+        if isinstance(x, ast.If):
+            if leaves(x.body):
+                closed.add((id(x), 0))
+            if leaves(x.orelse):
+                closed.add((id(x), 1))
+
     def exclusive(a, b):
         pa, pb = dict(branch.get(id(a), ())), dict(branch.get(id(b), ()))
-        return any(k in pb and pb[k] != v for k, v in pa.items())
+        if any(k in pb and pb[k] != v for k, v in pa.items()):
+            return True
+        # a sits in a branch that always leaves (return / raise / continue /
+        # break) and b lies outside that branch: control never gets from a
+        # to b within one iteration
+        return any((k, v) in closed and pb.get(k) != v
+                   for k, v in pa.items())
 
     def assigns(stmts):
         for st in stmts:
@@ -2657,7 +2687,7 @@ def normalise(model, stats=None):
 
     from . import canon
     cond_tab = canon.load()
-    for _round in range(ROUNDS + 1):
+    for _round in range(ROUNDS + 2):
         any_change = False
         todo = []
         n7_touched = set()
@@ -2726,9 +2756,6 @@ def normalise(model, stats=None):
             if n6_single_use_temps(f.node, keep):
                 count['N6'] = count.get('N6', 0) + 1
                 any_change = True
-            if n11_rename_locals(f.node, keep, _stmt_hashes(f)):
-                count['N11'] = count.get('N11', 0) + 1
-                any_change = True
             if n8_append_loops(f.node, _stmt_hashes(f), keep):
                 count['N8'] = count.get('N8', 0) + 1
                 any_change = True
@@ -2751,6 +2778,20 @@ def normalise(model, stats=None):
             if m.name in touched:
                 _reparent(m.tree)
         model._callgraph = None
+        if not any_change:
+            # everything else is stable (no splice can bring in further
+            # names): alpha-rename new locals to pinned names that have gone
+            renamed = set()
+            for (f, dirty, n4) in todo:
+                if dirty and n11_rename_locals(
+                        f.node, base['locals'].get(f.qual, ()),
+                        _stmt_hashes(f)):
+                    count['N11'] = count.get('N11', 0) + 1
+                    renamed.add(f.module.name)
+                    any_change = True
+            for m in model.modules.values():
+                if m.name in renamed:
+                    _reparent(m.tree)
         if not any_change:
             break
     stats.update(count)
